@@ -718,6 +718,9 @@ func (c08Stream) Impl(c Case) string {
 	}
 	rc.mu.Unlock()
 	mu.Unlock()
+	if st := rc.stale(); st != "" {
+		fail("%s", st)
+	}
 	sut.finish()
 	for _, x := range all {
 		x.c.close()
